@@ -42,7 +42,8 @@ def _files():
     import tlslite.sessioncache as sc
     import tlslite.utils.python_rsakey as pr
     import tlslite.basedb as bd
-    return {sc.__file__, pr.__file__, bd.__file__}
+    import tlslite.utils.rsakey as rk
+    return {sc.__file__, pr.__file__, bd.__file__, rk.__file__}
 
 
 class _TimeShim(object):
@@ -564,6 +565,11 @@ def rsa_scenarios(tier):
     S.append(dict(name="pem-2x-sign-decrypt", toy=False,
                   threads={1: [["sign", "m1"], ["decrypt", "c1"]], 2: [["decrypt", "c2"], ["sign", "m2"]]}))
     S.append(dict(name="pem-3x-sign", toy=False, threads={1: [["sign", "m1"]], 2: [["sign", "m2"]], 3: [["sign", "m3"]]}))
+    # decrypt() as a whole, valid and invalid padding mixed (bad* = ciphertexts whose padding is wrong: implicit rejection)
+    # (deep = every line of tlslite/utils/rsakey.py is a switch point as well: random schedules only)
+    S.append(dict(name="pem-2x-decrypt-bad", toy=False, deep=True, threads={1: [["decrypt", "bad1"]], 2: [["decrypt", "bad2"]]}))
+    S.append(dict(name="pem-2x-decrypt-mixed", toy=False, deep=True, threads={1: [["decrypt", "c1"], ["decrypt", "bad1"]],
+                                                                             2: [["decrypt", "bad2"], ["decrypt", "c2"]]}))
     if tier == "thorough":
         S.append(dict(name="toy-3x2", toy=True, threads={1: [["raw", 9], ["raw", 10]], 2: [["raw", 11], ["raw", 12]],
                                                          3: [["raw", 13], ["raw", 14]]}))
@@ -591,7 +597,13 @@ def make_key(sc, run):
 def run_rsa_scenario(sc, chooser, max_steps=800, keys=True):
     salt = sc.get("salt", 0)
     CTX.reset("c18-%s-%d" % (sc["name"], salt))
-    run = sched.Run(_files(), chooser, max_steps=max_steps)
+    files = _files()
+    if not sc.get("deep"):
+        import tlslite.utils.rsakey as _rk
+        files = files - {_rk.__file__}
+    else:
+        max_steps = 400000
+    run = sched.Run(files, chooser, max_steps=max_steps)
     run.keys = keys
     key, cfg, d, n = make_key(sc, run)
     toy = sc["toy"]
@@ -600,7 +612,17 @@ def run_rsa_scenario(sc, chooser, max_steps=800, keys=True):
         for tid in sorted(sc["threads"]):
             for op in sc["threads"][tid]:
                 if op[0] == "decrypt" and op[1] not in inputs:
-                    inputs[op[1]] = key.encrypt(bytearray(("secret " + op[1]).encode()))
+                    if op[1].startswith("bad"):
+                        k_ = (n.bit_length() + 7) // 8
+                        inputs[op[1]] = bytearray(pow(0x1234567 + len(inputs) * 977, 65537, n).to_bytes(k_, "big"))
+                    else:
+                        inputs[op[1]] = key.encrypt(bytearray(("secret " + op[1]).encode()))
+        # what a lone caller gets for each input (fresh key object, nothing shared)
+        expect = {}
+        ref = big_key()
+        for nm, ct in inputs.items():
+            r_ = ref.decrypt(bytearray(ct))
+            expect[nm] = None if r_ is None else bytes(r_).hex()
     orig = key._rawPrivateKeyOp
 
     def logged(m):
@@ -631,7 +653,10 @@ def run_rsa_scenario(sc, chooser, max_steps=800, keys=True):
                 elif op[0] == "sign":
                     key.sign(bytearray(("message " + op[1]).encode()))
                 else:
-                    key.decrypt(inputs[op[1]])
+                    r_ = key.decrypt(bytearray(inputs[op[1]]))
+                    t_ = run.me()
+                    run.emit("dec", th=(t_.tid if t_ is not None else 0), name=op[1],
+                             out="none" if r_ is None else bytes(r_).hex(), exp="none" if expect[op[1]] is None else expect[op[1]])
             except sched.SchedAbort:
                 raise
             except BaseException:
@@ -1005,7 +1030,7 @@ def run(tier):
     rep.trusted = ["TLC 1.8", "PlusCal translator", "harness/sched.py (settrace line hook, cooperative lock)",
                    "Python builtin pow as leaf oracle for the 1024-bit key", "CPython executes one source line "
                    "of the target files atomically w.r.t. the scheduler"]
-    rep.assumptions = ["switch points = source lines of sessioncache.py, python_rsakey.py, basedb.py (not bytecodes)",
+    rep.assumptions = ["switch points = source lines of sessioncache.py, python_rsakey.py, basedb.py (and utils/rsakey.py for the whole-decrypt scenarios) - not bytecodes",
                        "bounded preemptions (2 quick / 3 thorough), 2-3 worker threads + environment thread",
                        "an entry of age exactly maxAge may be returned or not; a re-stored id may or may not consume "
                        "a list slot (CacheRef.tla MUST/MAY windows)",
@@ -1026,6 +1051,9 @@ def run(tier):
             if with_rest:
                 for sc in rsa_scenarios(tier):
                     # the PEM key costs ~0.1 s per execution: few schedules (the toy key runs the same lines)
+                    if sc.get("deep"):
+                        jobs.append(("rsa", sc, "random", 24 if tier == "quick" else 200, None))
+                        continue
                     jobs.append(("rsa", sc, "dfs", bound, cap if sc["toy"] else cap // 25))
                     jobs.append(("rsa", sc, "random", nrand if sc["toy"] else nrand // 5, None))
                 for sc in db_scenarios(tier):
